@@ -1029,6 +1029,23 @@ def run_peer_change(ctx, op):
             if not b:
                 return
             p = int(op['pos'] * len(b)) % len(b)
+            enc = script_text_encoding(gen['src'], f['path'])
+            if enc is not None:
+                # gentest decided these bytes are text in encoding enc (its
+                # detector's call): the test compares lines, and a line
+                # that holds an identity string or a current date is
+                # excusable like any other text line
+                try:
+                    t = bytes(b).decode(enc)
+                    before_p = bytes(b[:p]).decode(enc, 'ignore')
+                    ln = t.split('\n')[before_p.count('\n')]
+                    if not ex.must_check(ln, t):
+                        ctx.stats['abstain'][
+                            'byte_change_on_excusable_text_line'] += 1
+                        return
+                except Exception:
+                    ctx.stats['abstain']['byte_change_undecodable'] += 1
+                    return
             b[p] ^= 0x01
             f['hex'] = bytes(b).hex()
             ch.update(applied='yes', how='alter_byte', test=test,
@@ -1065,6 +1082,26 @@ def script_test_for(src, path):
                 return None         # two differently named tests: ambiguous
             found = m.group(1)
     return found
+
+
+def script_text_encoding(src, path):
+    """Encoding given in the generated assertTextFileCorrect for this
+    output file, 'utf-8' if it is a text assertion without one, None if the
+    file is checked as binary (or has no test)."""
+    if path.startswith('$TMPDIR/'):
+        lit = 'tmpdir, %r)' % path[len('$TMPDIR/'):]
+    else:
+        lit = 'cwd, %r)' % path
+    for m in re.finditer(r'^    def (test_\w+)\(self\):\n((?:(?!    def )'
+                         r'(?!if __name__).*\n)*)', src, re.M):
+        body = m.group(2)
+        k = body.find('Correct(')
+        if k >= 0 and body[k:].split(',\n')[0].rstrip().endswith(lit):
+            if 'assertTextFileCorrect' not in body:
+                return None
+            e = re.search(r"encoding='([^']+)'", body)
+            return e.group(1) if e else 'utf-8'
+    return None
 
 
 def covered(refs, path):
